@@ -121,7 +121,7 @@ def _native_replay(sc: Scratch, script_path: Path, log_path: Path) -> tuple[bool
     if "mod verif_replay_c14" not in src:
         target.write_text(src + "\n" + REPLAY_MOD.read_text())
     env = env_offline()
-    env["VERIF_C14_SCRIPT"] = str(script_path)
+    env["VERIF_C14_SCRIPT"] = str(Path(script_path).resolve())
     env["CARGO_TARGET_DIR"] = str(CACHE / "target-native-pavex")
     p = subprocess.run(["cargo", "test", "--offline", "-p", "pavex", "--lib", "verif_replay_c14", "--", "--nocapture", "--test-threads", "1"],
                        cwd=sc.repo, env=env, stdout=subprocess.PIPE, stderr=subprocess.STDOUT, text=True)
